@@ -45,7 +45,9 @@ RULE = (
     "torch.save / clone, in-place elementwise op, observe] in the orders PCIO, CPIO, PICO from every initial value. "
     "alias: every (value with repeated or shared Grid objects, deep copy form incl. several objects copied in ONE "
     "deepcopy / pickle call, side edited in place (original | copy), edit (5 grid setters on the grid of entry 0, 1, last; "
-    "2 data edits)); the other side is read as a whole, by indexing and by iteration before and after the edit"
+    "2 data edits)); the other side is read as a whole, by indexing and by iteration before and after the edit. "
+    "layout: the same program judgement from initial values whose wrapped tensor is a non-contiguous view (transposed spatial "
+    "axes, step-sliced, stride-0 expanded batch of one item) over a 64-op first menu and a 12-op second menu"
 )
 EXPLANATION = (
     "bounded exhaustive exploration of torch-op programs (incl. in-place ops, setters, copies) on tagged image batches, "
@@ -62,10 +64,11 @@ ASSUMPTIONS = [
     "alias histories: a deep copy (copy.deepcopy, pickle, torch.save/load) preserves type, data, grids and axes durably: what a "
     "reader of one side sees must not change when the other side is edited in place; shallow copies are not judged",
     "in-place SHAPE operations (transpose_, squeeze_, ...) return plain tensors and are outside the statement: not in the alphabet",
+    "layout: the plain-tensor twin has the SAME memory layout, so an operation torch itself refuses on that layout (e.g. view) is not enabled",
 ]
 MIN_NONTRIVIAL = {"quick": 30000, "thorough": 60000}  # measured quick 60157
 MIN_OUTCOMES = {"quick": 25000, "thorough": 50000}  # measured quick 53887
-MIN_SUB_TRACES = {"programs": 60000, "copy": 4000, "family": 20000, "alias": 2500}  # measured quick 120822 / 8162 / 39420 / 5076
+MIN_SUB_TRACES = {"programs": 60000, "copy": 4000, "family": 20000, "alias": 2500, "layout": 2000}  # measured quick 120822 / 8162 / 39420 / 5076
 
 KINDS = ("ImageBatch", "Image", "FlowFields", "FlowField")
 # batches whose item grids contain pairs that compare equal under Grid.__eq__ (allclose, align_corners ignored) without
@@ -203,14 +206,29 @@ class Universe:
             setattr(out, name, v.clone() if isinstance(v, Tensor) else v)
         return out
 
-    def build(self, kind, which="base", plain=False):
+    def build(self, kind, which="base", plain=False, layout=None):
+        """layout (base value only): the wrapped tensor is a non-contiguous VIEW with the same values
+        (ref/layout.py: transposed = spatial-axes transposed view of a transposed copy, sliced = step-sliced view of a
+        buffer with garbage in between, expanded = stride-0 batch of N times item 0, every entry with its own grid-0 object)."""
         data = self.data(kind, which)
+        items = self.items(kind, which)
+        if layout and which == "base":
+            from ref.layout import relayout
+
+            if layout == "expanded":
+                if kind not in ("ImageBatch", "FlowFields"):
+                    raise ValueError("expanded layout is defined for batches only")
+                items = [0] * self.N
+                data = relayout(data[0], "expanded", self.N)
+            else:
+                data = relayout(data, layout)
+            assert not data.is_contiguous(), "layout variant must not be contiguous"
         if plain:
             return data
         from deepali.core.grid import Axes
         from deepali.data import FlowField, FlowFields, Image, ImageBatch
 
-        grids = [self.real_grid(i) for i in self.items(kind, which)]
+        grids = [self.real_grid(i) for i in items]
         if kind == "ImageBatch":
             return ImageBatch(data, grids)
         if kind == "Image":
@@ -728,6 +746,22 @@ MENU2 = MENU + [
 ]
 assert all(n in OPS for n in MENU2) and len(set(MENU2)) == len(MENU2)
 # second operation for the near-equal-grid batches in the quick tier: everything that copies, clones or regroups grids
+# layout sub-check: initial values whose wrapped tensor is a non-contiguous view; one or two forms per mechanism
+KINDS_LAYOUT = tuple(f"{k}@{f}" for k in KINDS for f in ("transposed", "sliced")) + ("ImageBatch@expanded", "FlowFields@expanded")
+LAYOUT_MENU = [
+    "neg", "mul(2)", "add(zeros_plain)", "add(other)", "add_(1)", "mul_(2)", "neg_()", "sum(0,keepdim=True)",
+    "getitem(0)", "getitem(1)", "getitem(1:)", "getitem(::2)", "getitem(list(2,0))", "getitem(boolmask)", "getitem(ellipsis)",
+    "getitem(:,0:1)", "narrow(0,1,2)", "narrow(2,1,2)", "torch.narrow(0,1,2)", "select(0,1)", "index_select(0,(2,0))",
+    "cat(x,x;dim=0)", "cat(x,other;dim=0)", "cat(x,x;dim=1)", "stack(x,x;dim=0)", "split(1)", "split(list(1,n-1))", "chunk(2)",
+    "unbind(0)", "tensor_split(2)", "flip(0)", "flip(2)", "roll(1,0)", "gather(0,perm)", "transpose(0,1)", "transpose(-1,-2)",
+    "expand(same)", "repeat(2,1s)", "reshape(same)", "view(same)", "flatten(0,1)", "unsqueeze(0)", "squeeze()",
+    "interpolate(size=same)", "pad((0,0))", "double()", "to(int32)", "to(same_dtype)", "clone()", "torch.clone",
+    "clone(contiguous_format)", "detach()", "contiguous()", "data", "iter", "reversed", "enumerate_getitem", "grid_(X)",
+    "batch();grid_(X)", "copy.copy", "copy.deepcopy", "pickle", "pickle(protocol=2)", "torch.save_load", "deepcopy(list)",
+]
+LAYOUT_SECOND = ["clone()", "contiguous()", "copy.deepcopy", "pickle", "torch.save_load", "getitem(1)", "getitem(1:)", "iter",
+                 "cat(x,x;dim=0)", "split(1)", "flip(0)", "mul_(2)"]
+assert all(n in OPS for n in LAYOUT_MENU + LAYOUT_SECOND)
 MENU_NEAR = [
     "clone()", "torch.clone", "clone(contiguous_format)", "copy.copy", "copy.deepcopy", "pickle", "pickle(protocol=2)",
     "torch.save_load", "deepcopy(list)", "detach()", "iter", "getitem(1:)", "getitem(list(2,0))", "cat(x,x;dim=0)",
@@ -753,6 +787,9 @@ def bounds(tier):
         "program_length_full_alphabet": 2,
         "program_length_menu": 2 if tier == "quick" else 3,
         "program_length_menu_applies_to": "D=2",
+        "layout_values": list(KINDS_LAYOUT),
+        "layout_first_ops": len(LAYOUT_MENU),
+        "layout_second_ops": len(LAYOUT_SECOND) if tier == "quick" else len(MENU2),
         "family_programs": {"peek": len(FAM_PEEK), "copy": len(FAM_COPY), "inplace": len(FAM_INPLACE), "observe": len(FAM_OBS), "orders": list(FAM_ORDERS)},
         "alias_histories": {"cases": len(alias_cases(tier)), "preparations": list(ALIAS_PREP), "copy_forms": list(ALIAS_COPY), "edits": ALIAS_EDIT, "edited_entries": "0, 1, last", "sides": ["original", "copy"]},
         "tuple_results_continued_from": "elements 0, 1 and last",
@@ -988,13 +1025,15 @@ class Run:
     """One program executed from fresh values (deepali value + plain twin + affine)."""
 
     def __init__(self, D, kind):
+        kind, _, layout = kind.partition("@")
+        self.layout = layout or None
         self.U = Universe.get(D, near=kind.endswith("~near"))
         kind = kind.split("~")[0]
         self.kind = kind
         self.ci = Ctx(self.U, kind, plain=False)
         self.cp = Ctx(self.U, kind, plain=True)
-        self.x = self.U.build(kind, "base")
-        self.p = self.U.build(kind, "base", plain=True)
+        self.x = self.U.build(kind, "base", layout=self.layout)
+        self.p = self.U.build(kind, "base", plain=True, layout=self.layout)
         self.aff = (1, 0)
         self.mixed = False  # an entry holds channels of items with different grids (provenance then undefined)
         self.regrid = False  # grid_(X) was applied: every entry of the value carries the grid set last
@@ -1029,7 +1068,9 @@ class Run:
         return True
 
 
-def sig_of(name, in_type, problem):
+def sig_of(name, in_type, problem, layout=None):
+    if layout:
+        return f"C19/layout/{OPS[name][0]}/op={name}/type={in_type}/layout={layout}/{problem}"
     return f"C19/{OPS[name][0]}/op={name}/type={in_type}/{problem}"
 
 
@@ -1063,7 +1104,7 @@ def execute(D, kind, steps, acc: Acc = None):
         if res[0] == "raises":
             if last:
                 e = res[1]
-                out.append((sig_of(name, res[2], "raises=" + type(e).__name__), exc_text(e)))
+                out.append((sig_of(name, res[2], "raises=" + type(e).__name__, run.layout), exc_text(e)))
                 info["obs"] = ("raises", type(e).__name__)
             return "ok" if last else "ended", out, info
         _, r, pr, aff, in_type = res
@@ -1075,13 +1116,13 @@ def execute(D, kind, steps, acc: Acc = None):
             cont = []
             if OPS[name][0] == "copy":
                 for problem, detail in judge_copy(run.U, run.kind, x_before, r):
-                    out.append((sig_of(name, in_type, problem), detail))
+                    out.append((sig_of(name, in_type, problem, run.layout), detail))
                 info["copy"] = True
             for k, el in enumerate(els):
                 if typed(el):
                     problems, obs, undefs = judge_value(run.U, run.kind, el, aff, run.mixed, run.regrid, run.foreign, [a for a in run.past + [run.aff] if a is not None and a != aff])
                     for problem, detail in problems:
-                        out.append((sig_of(name, in_type, problem), (f"element {k}: " if len(els) > 1 else "") + detail))
+                        out.append((sig_of(name, in_type, problem, run.layout), (f"element {k}: " if len(els) > 1 else "") + detail))
                     obs_all.append(obs)
                     undef_all += undefs
                     info["typed"] = True
@@ -1336,6 +1377,9 @@ def shards(tier: str, seed: int):
             step = 8 if tier == "quick" else 1
             for j in range(0, len(ORDER), step):
                 out.append({"tier": tier, "D": D, "kind": kind, "first": ORDER[j : j + step]})
+        for kind in KINDS_LAYOUT:
+            for j in range(0, len(LAYOUT_MENU), 8):
+                out.append({"tier": tier, "D": D, "kind": kind, "first": LAYOUT_MENU[j : j + 8]})
         for kind in KINDS:
             for order in FAM_ORDERS:
                 for peek in FAM_PEEK:
@@ -1358,6 +1402,8 @@ def _explore(acc: Acc, tier, D, kind, steps, depth_full, depth_menu):
     acc.trace("programs", depth=len(steps))
     if sub == "copy":
         acc.subs["copy"] += 1
+    if "@" in kind:
+        acc.subs["layout"] += 1
     case = {"D": D, "kind": kind, "steps": steps}
     for sig, detail in viols:
         acc.violation(sig, case, detail, size=len(steps))
@@ -1374,6 +1420,8 @@ def _explore(acc: Acc, tier, D, kind, steps, depth_full, depth_menu):
     in_menu = all(n in MENU for n in names)
     if depth_full > 1:
         second = ORDER if tier != "quick" else (MENU_NEAR if kind.endswith("~near") else MENU2)
+        if "@" in kind:
+            second = LAYOUT_SECOND if tier == "quick" else MENU2
         nxt, df, dm = second, depth_full - 1, depth_menu - 1
     elif depth_menu > 1 and in_menu:
         nxt, df, dm = MENU, 0, depth_menu - 1
